@@ -976,6 +976,21 @@ let () = register "c06tcp" (fun line ->
            kept := !kept @ [(!nk, b, ref true)]; incr nk; r
          | [_; r] -> r
          | _ -> "?")
+      | 'O' ->
+        (* open, then host k removed (its kept connections, this one included if it reached k before, are closed), then k added again *)
+        (match S.split_on_char ':' op with
+         | [ok; r] ->
+           let k0 = int_of_string (S.sub ok 1 (S.length ok - 1)) in
+           if S.length r = 2 && Stdlib.String.get r 0 = 'b' then begin
+             let b = Char.code (Stdlib.String.get r 1) - 48 in
+             st.(b) <- Stats.sstep st.(b) Stats.SvConnect;
+             kept := !kept @ [(!nk, b, ref true)]; incr nk
+           end;
+           let n = ref 0 in
+           L.iter (fun (_, b, o) -> if b = k0 && !o then begin o := false; incr n; st.(b) <- Stats.sstep st.(b) Stats.SvFinish end) !kept;
+           st.(k0) <- Stats.sinit Z0;
+           Printf.sprintf "%s closed=%d late=0" r !n
+         | _ -> "?")
       | 'c' ->
         let i = int_of_string body in
         L.iter (fun (k, b, o) -> if k = i && !o then begin o := false; st.(b) <- Stats.sstep st.(b) Stats.SvFinish end) !kept; ""
